@@ -10,7 +10,19 @@ Case descriptor (all cases carry the same keys):
     check     : the clause (function name [+ option] [+ ':invariance'])
     error     : first violation of that clause (observed vs expected)
 A "known" entry matches a descriptor when every key it carries (except 'error') has the same value in the descriptor, so a
-full descriptor matches exactly itself and a partial one (e.g. {"check": ...}) matches the whole class."""
+full descriptor matches exactly itself and a partial one (e.g. {"mesh": "concave"}) matches the whole class.
+
+Clauses: definition of edge_length, edge_middle_point, degree, face_area, face_normals (+unit), face_barycenter,
+face_circumcenter (+equidistance, in plane), corner_angles (+sum (n-2) pi per face), cotangent, cotan_weights, angle_defects
+(zero_border on/off, sum = 2 pi chi, euler_characteristic), vertex_normals (uniform/area/angle, custom_fnormals, unit),
+cell_volume, cell_barycenter, mean_edge_length/mean_face_area/mean_cell_volume (n = None, 1, half, all), total_area,
+barycenter; interpolation of constants (scalar / vector, every weight, every direction) and of random attributes against
+the weighted means; persistent=True stores the same values under the default name, persistent=False leaves nothing behind;
+every quantity on the moved / renumbered / face-rotated / scaled mesh against the transformed quantity of the original;
+direct calls of the geometry.* primitives.  Options: persistent x dense x (call order forward / reverse, which decides
+whether the cached 'angles', 'cotan', 'area', 'normals' attributes exist when a dependent function runs).
+Outside the statement (not checked): mean_*(n > number of elements), triangle_aspect_ratio, border_normals,
+curvature_matrices, face_near_border, cell_faces_on_boundary, non triangular input of the triangle-only functions."""
 import math, random, itertools
 import numpy as np
 from replay.common import *
@@ -157,9 +169,9 @@ def honeycomb(rs):
 
 
 def concave():
-    """planar mesh with a dart quad (reflex corner listed first), an L-shaped hexagon and a triangle"""
+    """planar mesh with a dart quad (reflex corner listed second), an L-shaped hexagon and two triangles"""
     V = np.array([(2.5, 2.5, 0), (3, 0, 0), (1, 3, 0), (0, 0, 0), (3, 3, 0), (4, 0, 0), (4, 4, 0), (1, 4, 0)], float)
-    F = [(0, 3, 1), (0, 2, 3), (0, 1, 4, 2), (1, 5, 6, 7, 2, 4)]
+    F = [(0, 3, 1), (0, 2, 3), (2, 0, 1, 4), (1, 5, 6, 7, 2, 4)]
     return V, F
 
 
@@ -198,6 +210,9 @@ def surface_family(seed, thorough):
     yield 'tri_grid_3x5', *tri_grid(3, 5, 0.18, rs(2)), T
     V, F = tri_grid(4, 3, 0.0, rs(3))
     yield 'tri_grid_flat_4x3', V, F, T                      # right angles (cot = 0), ties
+    V = np.round(2 * V)
+    V[:, 2] = [(3 * k) % 4 for k in range(len(V))]
+    yield 'tri_grid_int_4x3', V, F, dict(planar=True, convex=True, ints=True)
     yield 'annulus_tri_3x7', *ring(3, 7, rs(4), 0.15), T       # two border loops
     yield 'torus_tri_4x5', *ring(4, 5, rs(5), 0, closed_u=True), T
     for w in ('tetra', 'octa', 'icosa'):
@@ -207,6 +222,11 @@ def surface_family(seed, thorough):
     Vt, Ft = platonic('tetra')
     yield 'multi_comp', *merge([(Vt, Ft), tri_grid(3, 3, 0.15, rs(8)), ring(2, 5, rs(9), 0.1), (rs(10).randn(3, 3), [(0, 1, 2)])]), T
     yield 'cylinder_tri_3x5', *cylinder(3, 5, rs(11)), T
+    # two sheets meeting along a seam: the seam vertices are duplicated (same position, different index)
+    Va, Fa = tri_grid(3, 3, 0.0, rs(11))
+    Vs = np.vstack([Va, Va + np.array([2.0, 0, 0])])
+    Vs[:, 2] = 0.3 * np.sin(1.3 * Vs[:, 0] + 0.7 * Vs[:, 1])
+    yield 'seam_duplicated_vertices', Vs, Fa + [tuple(v + len(Va) for v in f) for f in Fa], T
     # fan with obtuse and thin (about 12 degrees) triangles around an interior vertex, plus a border fan
     ang = np.cumsum([0.2, 2.2, 0.25, 1.3, 0.9, 1.0])
     V = np.array([(0, 0, 0.4)] + [((1 + 0.5 * (k % 2)) * math.cos(t), (1 + 0.5 * (k % 2)) * math.sin(t), 0) for k, t in enumerate(ang)])
@@ -234,6 +254,9 @@ def surface_family(seed, thorough):
     yield 'honeycomb', V @ linmap(seed + 24).T, F, T
     V, F = concave()
     yield 'concave', V @ rotation(seed + 25).T, F, dict(planar=True, convex=False)
+    V, F = tri_grid(3, 3, 0.0, rs(26))
+    V[:, 2] = [(3 * k) % 4 for k in range(len(V))]
+    yield 'tri_grid_int_big_3x3', np.round(V * 30000), F, dict(planar=True, convex=True, ints=True)    # integer typed coordinates of size 1e5
     if thorough:
         yield 'tri_grid_6x4', *tri_grid(6, 4, 0.2, rs(30)), T
         yield 'torus_tri_3x8', *ring(3, 8, rs(31), 0, closed_u=True), T
@@ -265,6 +288,7 @@ def volume_family(seed, thorough):
     yield 'octa4', V, scramble([(4, 5, k, (k + 1) % 4) for k in range(4)], rs(4))
     V, C = kuhn(1)
     yield 'kuhn1', (V + 0.1 * rs(5).randn(*V.shape)) @ linmap(seed + 5).T, scramble(C, rs(6))
+    yield 'kuhn1_int', 2 * V + np.array([[(k * 7) % 2, 0, (k * 3) % 2] for k in range(len(V))]), scramble(C, rs(6))
     if thorough:
         V, C = kuhn(2)
         yield 'kuhn2', (V + 0.12 * rs(7).randn(*V.shape)) @ linmap(seed + 7).T, scramble(C, rs(8))
@@ -281,11 +305,13 @@ def transforms(thorough):
     t = [dict(rot=1, scale=1.0, shift=True, perm=None, facerot=None),      # rigid motion only
          dict(rot=None, scale=1.0, shift=False, perm=2, facerot=3),          # renumbering + face rotation only
          dict(rot=None, scale=2.5, shift=False, perm=None, facerot=None),    # scale only
-         dict(rot=4, scale=0.01, shift=True, perm=5, facerot=6)]             # everything
+         dict(rot=4, scale=0.01, shift=True, perm=5, facerot=6),             # everything
+         dict(rot=None, scale=1e-7, shift=False, perm=None, facerot=None)]   # very small uniform scale
     if thorough:
         t += [dict(rot=7, scale=1000.0, shift=True, perm=8, facerot=9),
               dict(rot=None, scale=1.0, shift=False, perm=None, facerot=10),
-              dict(rot=11, scale=1e-4, shift=False, perm=12, facerot=None)]
+              dict(rot=11, scale=1e-4, shift=False, perm=12, facerot=None),
+              dict(rot=None, scale=1e7, shift=False, perm=None, facerot=None)]
     return t
 
 
@@ -325,15 +351,20 @@ def apply_transform(kind, V, E, tr):
     return V2, E2, perm, (R, s, t)
 
 
-def build(kind, V, E):
+def build(kind, V, E, ints=False):
     raw = M.mesh.RawMeshData()
-    raw.vertices += [M.Vec(*[float(x) for x in p]) for p in V]
+    if ints and np.all(V == np.round(V)):
+        raw.vertices += [M.Vec(*[int(x) for x in p]) for p in V]      # integer coordinates typed by hand
+    else:
+        raw.vertices += [M.Vec(*[float(x) for x in p]) for p in V]
     if kind == 'surf':
         raw.faces += [tuple(int(x) for x in f) for f in E]
         return M.mesh.SurfaceMesh(raw)
     if kind == 'vol':
         raw.cells += [tuple(int(x) for x in c) for c in E]
         return M.mesh.VolumeMesh(raw)
+    if kind == 'cloud':
+        return M.mesh.PointCloud(raw)
     raw.edges += [tuple(int(x) for x in e) for e in E]
     return M.mesh.PolyLine(raw)
 
@@ -427,13 +458,16 @@ def fmt(x):
 
 # ------------------------------------------------------------------------------------------------ one pass over a mesh
 
+OWN_NAMES = {'length', 'middle', 'cotan_weight', 'degree', 'angleDefect', 'normals', 'area', 'barycenter', 'circumcenter', 'angles', 'cotan', 'volume'}
+
+
 class Pass:
     """runs every library function once on mesh m with the given options and checks the definitions.
     self.store[check] = (element kind, value kind, scale power, {element key: value}) for the invariance comparison"""
 
     def __init__(self, kind, V, E, flags, opts):
         self.kind, self.V, self.E, self.flags, self.opts = kind, V, E, flags, opts
-        self.m = build(kind, V, E)
+        self.m = build(kind, V, E, flags.get('ints', False))
         self.kw = dict(persistent=opts['persistent'], dense=opts['dense'])
         self.L = float(np.abs(V).max())
         self.store = {}
@@ -443,10 +477,20 @@ class Pass:
             self.S = Spec(V, [tuple(f) for f in self.m.faces])     # faces of a volume mesh are generated by the library: raw data
 
     # ---- helpers
-    def per_element(self, check, attr, elems, expected, power, ekind, vkind, what):
-        """elems: list of (library index, key, description)"""
+    def per_element(self, check, attr, elems, expected, power, ekind, vkind, what, where=None):
+        """elems: list of (library index, key, description); where = (container, default attribute name)"""
         vals = {}
         err = None
+        if attr is None:
+            return '%s: the function returned None' % check
+        if where is not None and self.opts['persistent']:
+            cont, nm = where
+            if not cont.has_attribute(nm):
+                return "persistent=True but the mesh carries no attribute '%s' on %s afterwards" % (nm, cont.id)
+            stored = cont.get_attribute(nm)
+            for (i, key, desc) in elems:
+                if not np.array_equal(arr(stored[i]), arr(attr[i]), equal_nan=True):
+                    return "persistent=True: stored attribute '%s' holds %s for %s, the returned attribute holds %s" % (nm, fmt(stored[i]), desc, fmt(attr[i]))
         for (i, key, desc), exp in zip(elems, expected):
             got = attr[i]
             vals[key] = arr(got).copy()
@@ -483,12 +527,12 @@ class Pass:
         if self.kind == 'surf' and {fkey(e) for e in m.edges} != set(self.S.und):
             return 'edge container %r differs from the sides of the faces' % (list(m.edges),)
         at = A.edge_length(m, **self.kw)
-        return self.per_element('edge_length', at, self.eelems(), [np.linalg.norm(V[a] - V[b]) for a, b in m.edges], 1, 'E', 's', 'length')
+        return self.per_element('edge_length', at, self.eelems(), [np.linalg.norm(V[a] - V[b]) for a, b in m.edges], 1, 'E', 's', 'length', (m.edges, 'length'))
 
     def c_edge_middle_point(self):
         m, V = self.m, self.V
         at = A.edge_middle_point(m, **self.kw)
-        return self.per_element('edge_middle_point', at, self.eelems(), [0.5 * (V[a] + V[b]) for a, b in m.edges], 1, 'E', 'p', 'middle point')
+        return self.per_element('edge_middle_point', at, self.eelems(), [0.5 * (V[a] + V[b]) for a, b in m.edges], 1, 'E', 'p', 'middle point', (m.edges, 'middle'))
 
     def c_degree(self):
         m = self.m
@@ -502,17 +546,17 @@ class Pass:
         for a, b in pairs:
             nb[a].add(b); nb[b].add(a)
         at = A.degree(m, **self.kw)
-        return self.per_element('degree', at, self.velems(), [len(s) for s in nb], 0, 'V', 's', 'degree')
+        return self.per_element('degree', at, self.velems(), [len(s) for s in nb], 0, 'V', 's', 'degree', (m.vertices, 'degree'))
 
     def c_face_area(self):
         at = A.face_area(self.m, **self.kw)
         exp = self.S.area if self.flags['planar'] else [None] * len(self.S.F)
-        return self.per_element('face_area', at, self.felems(), exp, 2, 'F', 's', 'area')
+        return self.per_element('face_area', at, self.felems(), exp, 2, 'F', 's', 'area', (self.m.faces, 'area'))
 
     def c_face_normals(self):
         at = A.face_normals(self.m, **self.kw)
         exp = self.S.normal if self.flags['planar'] else [None] * len(self.S.F)
-        err = self.per_element('face_normals', at, self.felems(), exp, 0, 'F', 'v', 'unit normal')
+        err = self.per_element('face_normals', at, self.felems(), exp, 0, 'F', 'v', 'unit normal', (self.m.faces, 'normals'))
         if err is None:
             for f in range(len(self.S.F)):
                 if abs(np.linalg.norm(arr(at[f])) - 1) > TOL:
@@ -521,12 +565,12 @@ class Pass:
 
     def c_face_barycenter(self):
         at = A.face_barycenter(self.m, **self.kw)
-        return self.per_element('face_barycenter', at, self.felems(), self.S.bary, 1, 'F', 'p', 'barycentre')
+        return self.per_element('face_barycenter', at, self.felems(), self.S.bary, 1, 'F', 'p', 'barycentre', (self.m.faces, 'barycenter'))
 
     def c_face_circumcenter(self):
         V = self.V
         at = A.face_circumcenter(self.m, **self.kw)
-        err = self.per_element('face_circumcenter', at, self.felems(), [tri_circumcenter(*(V[v] for v in f)) for f in self.S.F], 1, 'F', 'p', 'circumcentre')
+        err = self.per_element('face_circumcenter', at, self.felems(), [tri_circumcenter(*(V[v] for v in f)) for f in self.S.F], 1, 'F', 'p', 'circumcentre', (self.m.faces, 'circumcenter'))
         if err is None:
             for f, F in enumerate(self.S.F):
                 d = [np.linalg.norm(arr(at[f]) - V[v]) for v in F]
@@ -538,7 +582,7 @@ class Pass:
         S = self.S
         at = A.corner_angles(self.m, **self.kw)
         exp = [S.angle[f][i] for f in range(len(S.F)) for i in range(len(S.F[f]))]
-        err = self.per_element('corner_angles', at, self.celems(), exp if self.flags['planar'] else [None] * len(exp), 0, 'C', 's', 'angle')
+        err = self.per_element('corner_angles', at, self.celems(), exp if self.flags['planar'] else [None] * len(exp), 0, 'C', 's', 'angle', (self.m.face_corners, 'angles'))
         if err is None and self.flags['planar']:
             for f, F in enumerate(S.F):
                 tot = sum(float(at[S.first[f] + i]) for i in range(len(F)))
@@ -550,7 +594,7 @@ class Pass:
         S = self.S
         at = A.cotangent(self.m, **self.kw)
         exp = [S.cot(f, i) for f in range(len(S.F)) for i in range(3)]
-        return self.per_element('cotangent', at, self.celems(), exp, 0, 'C', 's', 'cotangent')
+        return self.per_element('cotangent', at, self.celems(), exp, 0, 'C', 's', 'cotangent', (self.m.face_corners, 'cotan'))
 
     def c_cotan_weights(self):
         S, m = self.S, self.m
@@ -563,7 +607,7 @@ class Pass:
                     i = [k for k in range(3) if F[k] not in (a, b)][0]
                     w += 0.5 * S.cot(f, i)
             exp.append(w)
-        return self.per_element('cotan_weights', at, self.eelems(), exp, 0, 'E', 's', 'cotan weight')
+        return self.per_element('cotan_weights', at, self.eelems(), exp, 0, 'E', 's', 'cotan weight', (m.edges, 'cotan_weight'))
 
     def defects(self, zb):
         S = self.S
@@ -572,7 +616,7 @@ class Pass:
         for v in range(len(self.V)):
             tot = sum(S.angle[f][i] for f, i in S.vfaces[v])
             exp.append((0.0 if zb else PI - tot) if v in S.border_v else 2 * PI - tot)
-        err = self.per_element('angle_defects[zero_border=%s]' % zb, at, self.velems(), exp, 0, 'V', 's', 'angle defect')
+        err = self.per_element('angle_defects[zero_border=%s]' % zb, at, self.velems(), exp, 0, 'V', 's', 'angle defect', (self.m.vertices, 'angleDefect'))
         if err is None and not zb:
             an = analyse(len(self.V), S.F)
             if an['problems']:
@@ -593,27 +637,49 @@ class Pass:
                 exp.append(None); continue
             w = {'uniform': lambda f, i: 1.0, 'area': lambda f, i: S.area[f], 'angle': lambda f, i: S.angle[f][i]}[mode]
             exp.append(unit(sum(w(f, i) * S.normal[f] for f, i in S.vfaces[v])))
-        err = self.per_element('vertex_normals[%s]' % mode, at, self.velems(), exp, 0, 'V', 'v', 'vertex normal (%s)' % mode)
+        err = self.per_element('vertex_normals[%s]' % mode, at, self.velems(), exp, 0, 'V', 'v', 'vertex normal (%s)' % mode, (self.m.vertices, 'normals'))
         if err is None:
             for v in range(len(self.V)):
                 if abs(np.linalg.norm(arr(at[v])) - 1) > TOL:
                     return 'vertex normal (%s) of vertex %d has norm %.12g' % (mode, v, np.linalg.norm(arr(at[v])))
         return err
 
+    def c_vnormals_custom(self):
+        S, m = self.S, self.m
+        if not self.flags['planar']:
+            return None
+        rs = np.random.RandomState(len(S.F))
+        cn = [unit(-n + 0.4 * rs.randn(3)) for n in S.normal]
+        for mode in ('uniform', 'area', 'angle'):
+            fat = self.new_attr(m.faces, 'cn', 3, lambda f: M.Vec(cn[f]))
+            at = A.vertex_normals(m, name='c07_custom_%s' % mode, interpolation=mode, custom_fnormals=fat, **self.kw)
+            w = {'uniform': lambda f, i: 1.0, 'area': lambda f, i: S.area[f], 'angle': lambda f, i: S.angle[f][i]}[mode]
+            for v in range(len(self.V)):
+                exp = unit(sum(w(f, i) * cn[f] for f, i in S.vfaces[v]))
+                if bad(at[v], exp, 1.0):
+                    return 'vertex normal (%s, custom_fnormals) of vertex %d = %s, definition gives %s' % (mode, v, fmt(at[v]), fmt(exp))
+        return None
+
     def c_cell_volume(self):
         V = self.V
         at = A.cell_volume(self.m, **self.kw)
         exp = [abs(np.linalg.det(np.array([V[b] - V[a], V[c] - V[a], V[d] - V[a]]))) / 6 for a, b, c, d in self.m.cells]
-        return self.per_element('cell_volume', at, self.kelems(), exp, 3, 'K', 's', 'volume')
+        return self.per_element('cell_volume', at, self.kelems(), exp, 3, 'K', 's', 'volume', (self.m.cells, 'volume'))
 
     def c_cell_barycenter(self):
         V = self.V
         at = A.cell_barycenter(self.m, **self.kw)
-        return self.per_element('cell_barycenter', at, self.kelems(), [np.mean([V[v] for v in c], axis=0) for c in self.m.cells], 1, 'K', 'p', 'barycentre')
+        return self.per_element('cell_barycenter', at, self.kelems(), [np.mean([V[v] for v in c], axis=0) for c in self.m.cells], 1, 'K', 'p', 'barycentre', (self.m.cells, 'barycenter'))
 
     def c_globals(self):
         m, V, L = self.m, self.V, self.L
         g = {}
+        if self.kind == 'cloud':
+            got, exp = A.barycenter(m), V.mean(axis=0)
+            if bad(got, exp, L):
+                return 'barycenter = %s, mean of the points is %s' % (fmt(got), fmt(exp))
+            self.store['globals'] = ('G', None, None, {'barycenter': (1, 'p', arr(got))})
+            return None
         lens = [np.linalg.norm(V[a] - V[b]) for a, b in m.edges]
         for n in (None, 1, max(1, len(lens) // 2), len(lens)):
             got, exp = A.mean_edge_length(m, n) if n is not None else A.mean_edge_length(m), sum(lens[:n or len(lens)]) / (n or len(lens))
@@ -636,6 +702,9 @@ class Pass:
                         return 'mean_face_area(n=%r) = %s, mean of the %s face areas is %s' % (n, fmt(got), 'first %d' % n if n else 'all', fmt(exp))
             g['mean_face_area'] = (2, 's', arr(A.mean_face_area(m)))
             if self.kind == 'surf':
+                chi = len({v for f in S.F for v in f}) - len(S.und) + len(S.F)
+                if A.euler_characteristic(m) != chi:
+                    return 'euler_characteristic = %r, V-E+F from the face list = %d' % (A.euler_characteristic(m), chi)
                 got = A.total_area(m)
                 if self.flags['planar'] and bad(got, sum(areas), L * L):
                     return 'total_area = %s, sum of the face areas is %s' % (fmt(got), fmt(sum(areas)))
@@ -683,8 +752,6 @@ class Pass:
                            A.interpolate_vertices_to_faces(m, self.new_attr(m.vertices, 'v', 1, None, 2.5), self.new_attr(m.faces, 'f', 1)), nF)
                 if e: return e
             for wt in ('uniform', 'area', 'angle', 'sum'):
-                if not self.flags['planar'] and wt in ('area', 'angle'):
-                    pass        # a constant is returned whatever the weights are
                 out = A.interpolate_faces_to_vertices(m, self.new_attr(m.faces, 'f', size, const), self.new_attr(m.vertices, 'v', size), weight=wt)
                 e = verify('interpolate_faces_to_vertices(weight=%s)' % wt, out, nV, (lambda v: float(len(S.vfaces[v]))) if wt == 'sum' else None)
                 if e: return e
@@ -745,7 +812,9 @@ class Pass:
 
     # ---- driver
     def steps(self):
-        if self.kind == 'line':
+        if self.kind == 'cloud':
+            st = [('globals', self.c_globals)]
+        elif self.kind == 'line':
             st = [('edge_length', self.c_edge_length), ('edge_middle_point', self.c_edge_middle_point), ('degree', self.c_degree), ('globals', self.c_globals)]
         elif self.kind == 'vol':
             st = [('cell_volume', self.c_cell_volume), ('cell_barycenter', self.c_cell_barycenter), ('face_area', self.c_face_area),
@@ -760,18 +829,32 @@ class Pass:
                        ('face_circumcenter', self.c_face_circumcenter)]
             st += [('face_area', self.c_face_area), ('face_normals', self.c_face_normals), ('face_barycenter', self.c_face_barycenter)]
             st += [('vertex_normals[%s]' % md, (lambda md=md: self.vnormals(md))) for md in ('uniform', 'area', 'angle')]
+            st += [('vertex_normals[custom_fnormals]', self.c_vnormals_custom)]
             st += [('edge_length', self.c_edge_length), ('edge_middle_point', self.c_edge_middle_point), ('degree', self.c_degree), ('globals', self.c_globals),
                    ('interpolate_constant', self.c_interpolate_constant), ('interpolate_weights', self.c_interpolate_weights)]
         if self.opts['order'] == 'reverse':
             st = st[::-1]
         return st
 
+    def attr_names(self):
+        out = set()
+        for cname in ('vertices', 'edges', 'faces', 'face_corners', 'cells'):
+            c = getattr(self.m, cname, None)
+            if c is not None:
+                out |= {(cname, a) for a in c.attributes if a in OWN_NAMES}
+        return out
+
     def run(self):
         for name, fn in self.steps():
+            before = self.attr_names()
             try:
                 err = fn()
             except Exception as e:
                 err = 'raised %s: %s' % (type(e).__name__, e)
+            if err is None and not self.opts['persistent'] and name != 'globals':
+                new = self.attr_names() - before
+                if new:
+                    err = 'persistent=False but the call left the attribute(s) %r on the mesh' % sorted(new)
             yield name, err
 
 
@@ -795,8 +878,7 @@ def compare(base, other, vmap, aff):
     Lo = max(float(np.abs(other.V).max()), 1e-300)
     for check, (ekind, vkind, power, vals) in base.store.items():
         if check not in other.store:
-            yield check + ':invariance', 'not computed on the transformed mesh (the definition clause raised)'
-            continue
+            continue        # the definition clause raised on the transformed mesh and has been reported already
         ov = other.store[check][3]
         err = None
         if ekind == 'G':
@@ -818,6 +900,153 @@ def compare(base, other, vmap, aff):
                     err = 'element %r: %s on the transformed mesh, transformed value of the original is %s (scale %g, power %d)' % (key, fmt(ov[k2]), fmt(exp), s, power)
                     break
         yield check + ':invariance', err
+
+
+# ------------------------------------------------------------------------------------------------ geometry primitives
+
+def primitives(seed, thorough):
+    """direct calls of the geometry.* primitives the attribute loops are built on -> yields (check, error)"""
+    from mouette.geometry import geometry as G
+    rs = np.random.RandomState(seed + 77)
+    Vec = M.Vec
+    n = 60 if thorough else 25
+
+    def loop(check, fn):
+        err = None
+        for _ in range(n):
+            try:
+                err = fn()
+            except Exception as e:
+                err = 'raised %s: %s' % (type(e).__name__, e)
+            if err:
+                break
+        return check, err
+
+    def pts(k, d=3):
+        return [Vec(rs.randn(d) * rs.choice([0.01, 1.0, 30.0]) ) for _ in range(k)]
+
+    def t_products():
+        a, b = pts(2)
+        if bad(G.cross(a, b), np.cross(a, b), np.linalg.norm(a) * np.linalg.norm(b)):
+            return 'cross(%s, %s) = %s' % (fmt(a), fmt(b), fmt(G.cross(a, b)))
+        if bad(G.dot(a, b), float(np.sum(np.asarray(a) * np.asarray(b))), np.linalg.norm(a) * np.linalg.norm(b)):
+            return 'dot(%s, %s) = %s' % (fmt(a), fmt(b), fmt(G.dot(a, b)))
+        for which, exp in (('l2', math.sqrt(sum(x * x for x in a))), ('l1', sum(abs(x) for x in a)), ('linf', max(abs(x) for x in a))):
+            if bad(G.norm(a, which), exp, exp) or bad(a.norm(which), exp, exp):
+                return 'norm(%s, %s) = %s / Vec.norm = %s, expected %s' % (fmt(a), which, fmt(G.norm(a, which)), fmt(a.norm(which)), fmt(exp))
+            d = np.asarray(a) - np.asarray(b)
+            exp = {'l2': math.sqrt(sum(x * x for x in d)), 'l1': sum(abs(x) for x in d), 'linf': max(abs(x) for x in d)}[which]
+            if bad(G.distance(a, b, which), exp, exp):
+                return 'distance(%s, %s, %s) = %s, expected %s' % (fmt(a), fmt(b), which, fmt(G.distance(a, b, which)), fmt(exp))
+        if bad(G.distance(a, b), np.linalg.norm(np.asarray(a) - np.asarray(b)), np.linalg.norm(a) + np.linalg.norm(b)):
+            return 'distance(%s, %s) = %s' % (fmt(a), fmt(b), fmt(G.distance(a, b)))
+        u = Vec.normalized(a)
+        if bad(u, np.asarray(a) / np.linalg.norm(a), 1.0):
+            return 'Vec.normalized(%s) = %s' % (fmt(a), fmt(u))
+        for x, s0, s1 in ((-2.5, -1, -1), (0.0, 1, 0), (3.0, 1, 1)):
+            if G.sign0(x) != s0 or G.sign(x) != s1:
+                return 'sign0(%r) = %r, sign(%r) = %r' % (x, G.sign0(x), x, G.sign(x))
+
+    def t_dets():
+        a, b, c = pts(3)
+        mat = np.array([a, b, c])
+        exp = np.linalg.det(mat)
+        u = np.linalg.norm(a) * np.linalg.norm(b) * np.linalg.norm(c)
+        if bad(G.det_3x3(a, b, c), exp, u) or bad(G.det_3x3(mat), exp, u) or bad(G.det_3x3(mat.T), exp, u):
+            return 'det_3x3 of rows %s %s %s = %s (three vectors) / %s (matrix), expected %s' % (fmt(a), fmt(b), fmt(c), fmt(G.det_3x3(a, b, c)), fmt(G.det_3x3(mat)), fmt(exp))
+        p, q = pts(2, 2)
+        exp = p[0] * q[1] - p[1] * q[0]
+        if bad(G.det_2x2(p, q), exp, np.linalg.norm(p) * np.linalg.norm(q)) or bad(G.det_2x2(complex(p[0], p[1]), complex(q[0], q[1])), exp, np.linalg.norm(p) * np.linalg.norm(q)):
+            return 'det_2x2(%s, %s) = %s, expected %s' % (fmt(p), fmt(q), fmt(G.det_2x2(p, q)), fmt(exp))
+
+    def nondegenerate(a, b, c):
+        th = [kahan_angle(b - a, c - a), kahan_angle(a - b, c - b), kahan_angle(a - c, b - c)]
+        return min(th) > 0.1
+
+    def t_triangle():
+        o = pts(1)[0]
+        a, b, c = [Vec(o + p) for p in pts(3)]
+        a, b, c = Vec(a), Vec(o + (b - o) * np.linalg.norm(a - o) / np.linalg.norm(b - o)), Vec(o + (c - o) * np.linalg.norm(a - o) / np.linalg.norm(c - o))
+        if not nondegenerate(a, b, c):
+            return None
+        la, lb, lc = np.linalg.norm(b - c), np.linalg.norm(a - c), np.linalg.norm(a - b)
+        sp = (la + lb + lc) / 2
+        heron = math.sqrt(sp * (sp - la) * (sp - lb) * (sp - lc))
+        L2 = max(la, lb, lc) ** 2
+        if bad(G.triangle_area(a, b, c), heron, L2):
+            return 'triangle_area(%s, %s, %s) = %s, Heron gives %s' % (fmt(a), fmt(b), fmt(c), fmt(G.triangle_area(a, b, c)), fmt(heron))
+        th = kahan_angle(a - b, c - b)
+        if bad(G.angle_3pts(a, b, c), th, 1.0):
+            return 'angle_3pts(%s, %s, %s) = %s, expected %s' % (fmt(a), fmt(b), fmt(c), fmt(G.angle_3pts(a, b, c)), fmt(th))
+        if bad(G.cotan(a, b, c), math.cos(th) / math.sin(th), 1.0 / math.sin(th) ** 2):
+            return 'cotan(%s, %s, %s) = %s, expected %s' % (fmt(a), fmt(b), fmt(c), fmt(G.cotan(a, b, c)), fmt(math.cos(th) / math.sin(th)))
+        if bad(G.angle_2vec3D(a - b, c - b), th, 1.0):
+            return 'angle_2vec3D = %s, expected %s' % (fmt(G.angle_2vec3D(a - b, c - b)), fmt(th))
+        nrm = pts(1)[0]
+        sg = 1.0 if np.dot(np.cross(a - b, c - b), nrm) >= 0 else -1.0
+        if bad(G.signed_angle_2vec3D(a - b, c - b, nrm), sg * th, 1.0) or bad(G.signed_angle_3pts(a, b, c, nrm), sg * th, 1.0):
+            return 'signed_angle_2vec3D / signed_angle_3pts = %s / %s, expected %s' % (fmt(G.signed_angle_2vec3D(a - b, c - b, nrm)), fmt(G.signed_angle_3pts(a, b, c, nrm)), fmt(sg * th))
+        cc = G.circumcenter(a, b, c)
+        exp = tri_circumcenter(np.asarray(a), np.asarray(b), np.asarray(c))
+        if bad(cc, exp, 100 * (np.linalg.norm(o) + math.sqrt(L2))):
+            return 'circumcenter(%s, %s, %s) = %s, expected %s' % (fmt(a), fmt(b), fmt(c), fmt(cc), fmt(exp))
+        X, Y, Z = G.face_basis(a, b, c)
+        B_ = np.array([X, Y, Z])
+        if bad(B_ @ B_.T, np.eye(3), 1.0) or bad(np.linalg.det(B_), 1.0, 1.0) or bad(X, unit(np.asarray(b - a)), 1.0) or bad(Z, unit(np.cross(b - a, c - a)), 1.0):
+            return 'face_basis(%s, %s, %s) = %s %s %s is not the direct orthonormal frame with X along AB and Z normal' % (fmt(a), fmt(b), fmt(c), fmt(X), fmt(Y), fmt(Z))
+        X2, Y2, Z2 = G.face_basis([a, b, c])
+        if bad(np.array([X2, Y2, Z2]), B_, 1.0):
+            return 'face_basis([A,B,C]) differs from face_basis(A,B,C)'
+        # project_to_plane
+        p = pts(1)[0]
+        pr = G.project_to_plane(p, Vec(np.cross(b - a, c - a)), a)
+        if abs(np.dot(pr - a, Z)) > TOL * (np.linalg.norm(p) + np.linalg.norm(a)) or np.linalg.norm(np.cross(pr - p, Z)) > TOL * (np.linalg.norm(p) + np.linalg.norm(a)):
+            return 'project_to_plane(%s) = %s is not the orthogonal projection on the plane of %s %s %s' % (fmt(p), fmt(pr), fmt(a), fmt(b), fmt(c))
+
+    def t_quad():
+        r = np.random.RandomState(rs.randint(1 << 30))
+        P = convex_ngon(4, r) @ linmap(rs.randint(1000)).T * rs.choice([0.01, 1.0, 30.0]) + rs.randn(3)
+        exp = float(np.linalg.norm(poly_area_vector(P)))
+        got = G.quad_area(*[Vec(p) for p in P])
+        if bad(got, exp, exp):
+            return 'quad_area of the planar convex quad %s = %s, expected %s' % ([fmt(p) for p in P], fmt(got), fmt(exp))
+
+    def t_2d():
+        a, b, c = pts(3, 2)
+        exp = 0.5 * abs((b[0] - a[0]) * (c[1] - a[1]) - (b[1] - a[1]) * (c[0] - a[0]))
+        u = max(np.linalg.norm(b - a), np.linalg.norm(c - a)) ** 2
+        if bad(G.triangle_area_2D(a, b, c), exp, u):
+            return 'triangle_area_2D(%s, %s, %s) = %s, expected %s' % (fmt(a), fmt(b), fmt(c), fmt(G.triangle_area_2D(a, b, c)), fmt(exp))
+        got = G.angle_2vec2D(a, b)
+        exp = math.atan2(a[0] * b[1] - a[1] * b[0], a[0] * b[0] + a[1] * b[1])
+        if bad([math.cos(got), math.sin(got)], [math.cos(exp), math.sin(exp)], 1.0):
+            return 'angle_2vec2D(%s, %s) = %s, expected %s modulo 2 pi' % (fmt(a), fmt(b), fmt(got), fmt(exp))
+        # lines
+        p1, d1, p2, d2 = pts(4, 2)
+        if abs(d1[0] * d2[1] - d1[1] * d2[0]) > 0.2 * np.linalg.norm(d1) * np.linalg.norm(d2) and min(np.linalg.norm(d1), np.linalg.norm(d2)) > 1e-3:
+            X = G.intersect_2lines2D(p1, d1, p2, d2)
+            sol = np.linalg.solve(np.array([[d1[0], -d2[0]], [d1[1], -d2[1]]]), np.asarray(p2 - p1))
+            exp = np.asarray(p1) + sol[0] * np.asarray(d1)
+            if X is None or bad(X, exp, 10 * (np.linalg.norm(p1) + np.linalg.norm(p2) + np.linalg.norm(exp))):
+                return 'intersect_2lines2D(%s, %s, %s, %s) = %s, expected %s' % (fmt(p1), fmt(d1), fmt(p2), fmt(d2), X if X is None else fmt(X), fmt(exp))
+        if G.intersect_2lines2D(p1, d1, p2, Vec(-2.0 * d1)) is not None:
+            return 'intersect_2lines2D of two parallel lines is not None'
+        # point / segment
+        P, A_, B_ = pts(3, 2)
+        seg = np.asarray(B_ - A_)
+        tpar = float(np.dot(np.asarray(P - A_), seg) / np.dot(seg, seg))
+        if 0 <= tpar <= 1:
+            exp = abs(seg[0] * (P[1] - A_[1]) - seg[1] * (P[0] - A_[0])) / np.linalg.norm(seg)
+        else:
+            exp = min(np.linalg.norm(P - A_), np.linalg.norm(P - B_))
+        if bad(G.distance_to_segment2D(P, A_, B_), exp, np.linalg.norm(P) + np.linalg.norm(A_) + np.linalg.norm(B_)):
+            return 'distance_to_segment2D(%s, %s, %s) = %s, expected %s' % (fmt(P), fmt(A_), fmt(B_), fmt(G.distance_to_segment2D(P, A_, B_)), fmt(exp))
+
+    yield loop('geometry.products_norms', t_products)
+    yield loop('geometry.determinants', t_dets)
+    yield loop('geometry.triangle', t_triangle)
+    yield loop('geometry.quad_area', t_quad)
+    yield loop('geometry.planar', t_2d)
 
 
 # ------------------------------------------------------------------------------------------------ main loop
@@ -880,13 +1109,17 @@ def main():
     seed = int(req.get('seed', 0) or 0)
     thorough = req.get('tier') == 'thorough'
     run = Runner(req)
-    seeds = (seed, seed + 1) if thorough else (seed,)
+    seeds = (seed, seed + 1, seed + 2) if thorough else (seed,)
     if run.want is not None and 'seed' in run.want:
         seeds = (int(run.want['seed']),)
     for sd in seeds:
+        if run.wanted_mesh('geometry_primitives', sd):
+            for check, err in primitives(sd, thorough):
+                run.report(dict(mesh='geometry_primitives', seed=sd, opts=None, transform=None, check=check), err)
         fams = [('surf', n, V, F, fl) for n, V, F, fl in surface_family(sd, thorough)]
-        fams += [('vol', n, V, C, dict(planar=True, convex=True)) for n, V, C in volume_family(sd, thorough)]
+        fams += [('vol', n, V, C, dict(planar=True, convex=True, ints=n.endswith('_int'))) for n, V, C in volume_family(sd, thorough)]
         fams += [('line', n, V, E, dict(planar=True, convex=True)) for n, V, E in line_family(sd, thorough)]
+        fams += [('cloud', 'cloud9', np.random.RandomState(sd).randn(9, 3), [], dict(planar=True, convex=True))]
         for kind, name, V, E, flags in fams:
             if not run.wanted_mesh(name, sd):
                 continue
@@ -900,7 +1133,7 @@ def main():
                     base = p
             for tr in transforms(thorough):
                 V2, E2, vmap, aff = apply_transform(kind, V, E, tr)
-                p = Pass(kind, V2, E2, flags, dict(persistent=True, dense=True, order='forward'))
+                p = Pass(kind, V2, E2, dict(flags, ints=False), dict(persistent=True, dense=True, order='forward'))
                 for check, err in p.run():
                     run.report(dict(mesh=name, seed=sd, opts=p.opts, transform=tr, check=check), err)
                 for check, err in compare(base, p, vmap, aff):
